@@ -177,7 +177,7 @@ pub fn record_c08(a: &Args) -> usize {
         let addr: u16 = if w % 5 == 0 { rng.r#gen() } else { addrs[w % 8] };
         let flip = if w % 2 == 0 { PageFlipStyle::Manual } else { PageFlipStyle::Automatic };
         let mut s = VirtualSign::new(Address(addr), flip);
-        let mut walker = Walker { rng: StdRng::seed_from_u64(rng.r#gen()), own: vec![addr], foreign: addr.wrapping_add(1), cfg_dims: None };
+        let mut walker = Walker { rng: StdRng::seed_from_u64(rng.r#gen()), own: vec![addr], foreign: addr.wrapping_add(1), cfg_dims: None, doctored: false };
         let (mut sent, mut chunks) = (0usize, 0u32);
         let steps = rng.gen_range(0..120);
         let mut fine = true;
